@@ -176,7 +176,7 @@ def instances(tier, seed):
     rnd = random.Random(seed)
     for kind, fields, doms in ((1, V1_FIELDS, V1_DOMAIN), (2, V2_FIELDS, V2_DOMAIN)):
         names = [k for k, _ in fields]
-        pick = names if full else sorted(set(["VERSION", "SECURITY", "NEWFILEUID"] + rnd.sample(names, 2)))
+        pick = names
         for f in pick:
             if f in ("OLDFILEUID", "NEWFILEUID"):
                 mk(f"corrupt_value[v{kind},{f},37]", "corrupt_value", dict(kind=kind, field=f, n=37))
